@@ -22,10 +22,28 @@ type StreamFace struct {
 	sendMut sync.Mutex
 }
 
+// headerRecorder keeps the bytes of a TLV header as they were received: the
+// two numbers are not always written in their shortest form, and the block is
+// handed on as it arrived
+type headerRecorder struct {
+	r   *bufio.Reader
+	hdr []byte
+}
+
+func (h *headerRecorder) ReadByte() (byte, error) {
+	b, err := h.r.ReadByte()
+	if err == nil {
+		h.hdr = append(h.hdr, b)
+	}
+	return b, err
+}
+
 func (f *StreamFace) Run() {
-	r := bufio.NewReader(f.conn)
+	br := bufio.NewReader(f.conn)
+	r := &headerRecorder{r: br, hdr: make([]byte, 0, 18)}
 	for f.running.Load() {
-		t, err := enc.ReadTLNum(r)
+		r.hdr = r.hdr[:0]
+		_, err := enc.ReadTLNum(r)
 		if err != nil {
 			if !f.running.Load() {
 				break
@@ -45,12 +63,9 @@ func (f *StreamFace) Run() {
 				break
 			}
 		}
-		l0 := t.EncodingLength()
-		l1 := l.EncodingLength()
-		buf := make([]byte, l0+l1+int(l))
-		t.EncodeInto(buf)
-		l.EncodeInto(buf[l0:])
-		_, err = io.ReadFull(r, buf[l0+l1:])
+		buf := make([]byte, len(r.hdr)+int(l))
+		copy(buf, r.hdr)
+		_, err = io.ReadFull(br, buf[len(r.hdr):])
 		if err != nil {
 			if !f.running.Load() {
 				break
